@@ -411,6 +411,9 @@ def shot_noise(img, method='poisson', seed=None):
             try:
                 # round to the nearest count (a bare integer cast truncates toward
                 # zero and biases the mean by half a count)
+                # (the standard deviation in double precision: np.sqrt of a half
+                # precision or 8 bit frame is half precision)
+                img = np.asarray(img, dtype=float)
                 img = np.asarray(np.round(rng.normal(loc=img, scale=np.sqrt(img))), dtype=int)
             except FloatingPointError:
                 raise ValueError('Counts must be positive')
